@@ -13,6 +13,29 @@ SPEC_DIR = os.path.join(VERIF, "spec")
 TLA_JARS = "/opt/veriftools/tla/tla2tools.jar:/opt/veriftools/tla/CommunityModules-deps.jar"
 
 
+# ---- machine-wide throttle: many checks may run at once (builders, seeded runs); without a cap the JVMs
+# exhaust memory and get OOM-killed, which would look like machinery failures.  flock()ed slot files.
+import fcntl
+import random as _random
+
+SLOT_DIR = os.path.join(VERIF, ".work", ".slots")
+MODEL_SLOTS = int(os.environ.get("VERIF_MODEL_SLOTS", "3"))
+JUDGE_SLOTS = int(os.environ.get("VERIF_JUDGE_SLOTS", "10"))
+
+
+def _acquire_slot(kind, n):
+    os.makedirs(SLOT_DIR, exist_ok=True)
+    while True:
+        for k in range(n):
+            f = open(os.path.join(SLOT_DIR, "%s_%d.lock" % (kind, k)), "w")
+            try:
+                fcntl.flock(f, fcntl.LOCK_EX | fcntl.LOCK_NB)
+                return f
+            except (BlockingIOError, OSError):
+                f.close()
+        time.sleep(0.3 + _random.random() * 0.7)
+
+
 class MachineryError(Exception):
     """TLC crashed, a model-level property failed, or output was unparsable (exit 2)."""
 
@@ -74,7 +97,7 @@ def _parse(res):
 
 
 def run_tlc(module, cfg, workdir, workers=16, env=None, extra=(), timeout=3600,
-            heap="6g", spec_dir=SPEC_DIR, deque=False, simulate=None, coverage=False):
+            heap="4g", spec_dir=SPEC_DIR, deque=False, simulate=None, coverage=False):
     """Run TLC on spec/<module>.tla with spec/<cfg>.  Never raises on a property
     violation; the caller decides what a non-zero return code means."""
     os.makedirs(workdir, exist_ok=True)
@@ -95,6 +118,7 @@ def run_tlc(module, cfg, workdir, workers=16, env=None, extra=(), timeout=3600,
         e.update({k: str(v) for k, v in env.items()})
     res = TlcResult()
     res.cmd = " ".join(cmd)
+    slot = _acquire_slot("judge" if workers == 1 else "model", JUDGE_SLOTS if workers == 1 else MODEL_SLOTS)
     t0 = time.time()
     try:
         p = subprocess.run(cmd, cwd=spec_dir, env=e, stdout=subprocess.PIPE, stderr=subprocess.STDOUT,
@@ -104,6 +128,8 @@ def run_tlc(module, cfg, workdir, workers=16, env=None, extra=(), timeout=3600,
         res.stdout = (te.stdout or b"").decode("utf8", "replace") if isinstance(te.stdout, bytes) else (te.stdout or "")
         res.returncode = -9
         res.stdout += "\n[vlib] TLC timed out after %ss" % timeout
+    finally:
+        slot.close()
     res.wall_s = time.time() - t0
     _parse(res)
     # the metadir only holds fingerprints / queues; remove it straight away (disk is limited)
